@@ -281,9 +281,19 @@ def rate_campaign(sess, rng, count, kinds=KINDS, max_teams=8, max_players=8, sim
             if len(ps) >= 2 and eff_tau > 0:
                 a, b = rng.sample(ps, 2)
                 b.mu, b.sigma = a.mu, math.sqrt(a.sigma * a.sigma + eff_tau * eff_tau)
+        if rng.random() < 0.1:    # a newcomer: exactly the model's own prior, as model.rating() hands it out
+            t = rng.choice(teams)
+            j = rng.randrange(len(t))
+            if abs(mh.m.mu) <= 20 * beta and 1e-4 * beta <= mh.m.sigma <= 10 * beta:
+                t[j] = mh.m.rating(name=rng.choice(NAMES)) if rng.random() < 0.5 else mh.m.rating()
         if rng.random() < 0.08:   # round-number relations among the sigmas of one team
             tv = [[(p.mu, p.sigma) for p in t] for t in teams]
             sigma_pattern(rng, tv)
+            if all(sg > 0 for t in tv for (_m, sg) in t):
+                teams = make_teams(mh, tv, rng)
+        if rng.random() < 0.08:   # exact coincidences between teams and players (see coincide)
+            tv = [[(p.mu, p.sigma) for p in t] for t in teams]
+            coincide(rng, tv, eff_tau)
             if all(sg > 0 for t in tv for (_m, sg) in t):
                 teams = make_teams(mh, tv, rng)
         if rng.random() < 0.12:   # value-identical line-ups (different objects)
@@ -466,6 +476,19 @@ def coincide(rng, vals, tau):
             vals[k][l] = vals[i][j]
     elif r < 0.52:
         sigma_pattern(rng, vals)
+    elif r < 0.62 and n >= 2:
+        # two teams of equal strength on paper, differently composed: the same sigmas in another order (team variances equal
+        # to the last bit, members not), the mus their own or mirrored too
+        multi = [i for i in range(n) if len(vals[i]) >= 2]
+        if multi:
+            i = rng.choice(multi)
+            k = rng.choice([x for x in range(n) if x != i])
+            sgs = [sg for (_m, sg) in vals[i]]
+            sgs = sgs[1:] + sgs[:1] if rng.random() < 0.5 else sgs[::-1]
+            mus = [vals[k][j % len(vals[k])][0] for j in range(len(sgs))]
+            if rng.random() < 0.3:
+                mus = [m for (m, _s) in vals[i]][::-1]
+            vals[k] = list(zip(mus, sgs))
 
 
 SIGMA_PATTERNS = {2: [(3, 4), (1, 1), (5, 12)], 3: [(5, 1, 7), (1, 1, 1), (13, 7, 17), (2, 3, 6), (5, 7, 1)],
@@ -875,6 +898,10 @@ def scale_groups(sess, rng, count, kinds=KINDS):
         if equal:
             shape = [shape[0]] * len(shape)
         vals = random_vals(rng, shape, beta, tau > 0)
+        if rng.random() < 0.4:      # newcomers: players exactly at the model's own prior (what model.rating() hands out)
+            for _nc in range(rng.randint(1, 2)):
+                i_ = rng.randrange(len(vals))
+                vals[i_][rng.randrange(len(vals[i_]))] = (base.m.mu, base.m.sigma)
         okw, _ = encode_order(rng, weak_order(rng, len(shape)))
         ks = [2.0 ** -10, 2.0 ** 10, 1e-3, 0.3, 7.0, 1e3, 10 ** rng.uniform(-3, 3)]
         for op in ["rate", "win", "draw", "rank"]:
@@ -946,6 +973,8 @@ def outcome_groups(sess, rng, count, kinds=KINDS):
         if rng.random() < 0.3:  # big mismatch: 5-8 combined sigma apart
             for j in range(len(vals[0])):
                 vals[0][j] = (20 * beta * rng.choice([-1, 1]) * rng.uniform(0.5, 1), vals[0][j][1])
+        if rng.random() < 0.35:
+            coincide(rng, vals, mh.m.tau)        # exact coincidences: mirrored line-ups, round-number sigmas, ...
         gid = GID.new("C05", "out")
         enc = rng.choice([("ranks", [0, 1], [0, 0], [1, 0]), ("ranks", [1.0, 2.0], [3, 3.0], [2, 1]),
                           ("scores", [5, 1], [2, 2], [0, 7]), ("ranks", [-1, 0], [0.0, 0], [4, 3]),
